@@ -47,11 +47,21 @@ def new_spec(kind, semantics='standard', combined=False):
 
 
 def build(kind, text, variables, subspecs=(), consts=(), io_types=None, semantics='standard', unit=None,
-          period=None, pastify=False, combined=False, parse=True, var_type='float'):
+          period=None, pastify=False, combined=False, parse=True, var_type='float', struct=None):
     """declare, configure and parse a specification.
     variables: iterable of names (declared float); subspecs: texts for add_sub_spec; consts: (name, type, value)
     io_types: {var: 'input'|'output'}; period: (value, unit[, tolerance])"""
     s = new_spec(kind, semantics, combined)
+    if struct:
+        # presentation "one structured variable": every variable v of the text becomes the field m.v (struct='flat') or m.inner.v
+        # ('nested') of ONE variable m whose samples are objects; the data adapters below pack the columns accordingly
+        cls = STRUCT[struct][0]
+        s.import_module('vf.msgs', cls)
+        s.declare_var(STRUCT_VAR, cls)
+        text = structify(text, variables, struct)
+        subspecs = [structify(t, variables, struct) for t in subspecs]
+        s._vf_struct = (struct, tuple(variables))
+        variables = ()
     for v in variables:
         s.declare_var(v, var_type)
     for c in consts:
@@ -71,6 +81,23 @@ def build(kind, text, variables, subspecs=(), consts=(), io_types=None, semantic
         if pastify:
             s.pastify()
     return s
+
+
+STRUCT_VAR = 'm'
+STRUCT = {'flat': ('Msg', 'm.'), 'nested': ('Outer', 'm.inner.')}
+
+
+def structify(text, variables, struct):
+    import re
+    if not variables:
+        return text
+    return re.sub(r'(?<![\w.])(%s)(?![\w.])' % '|'.join(re.escape(v) for v in variables), lambda mo: STRUCT[struct][1] + mo.group(1), text)
+
+
+def pack(spec, sample):
+    """{var: value} -> the one structured sample"""
+    from . import msgs
+    return getattr(msgs, STRUCT[spec._vf_struct[0]][0])(**sample)
 
 
 def build_steps(kind, text, variables, steps, subspecs=()):
@@ -109,6 +136,9 @@ def quiet():
 def dt_evaluate(spec, trace, times=None):
     """trace: {var: [values]}; returns the list returned by evaluate()"""
     d = {'time': list(times) if times is not None else list(range(len(next(iter(trace.values())))))}
+    if getattr(spec, '_vf_struct', None):
+        d[STRUCT_VAR] = [pack(spec, {v: vals[i] for v, vals in trace.items()}) for i in range(len(d['time']))]
+        return spec.evaluate(d)
     for v, vals in trace.items():
         d[v] = list(vals)
     return spec.evaluate(d)
@@ -116,19 +146,38 @@ def dt_evaluate(spec, trace, times=None):
 
 def dt_update(spec, t, sample):
     """sample: {var: value}"""
+    if getattr(spec, '_vf_struct', None):
+        return spec.update(t, [(STRUCT_VAR, pack(spec, sample))])
     return spec.update(t, [(v, x) for v, x in sample.items()])
 
 
 def ct_evaluate(spec, signals):
     """signals: {var: [(t, v), ...]}"""
+    if getattr(spec, '_vf_struct', None):
+        return spec.evaluate([STRUCT_VAR, pack_signals(spec, signals)])
     args = [[v, [[t, x] for t, x in s]] for v, s in signals.items()]
     return spec.evaluate(*args)
 
 
 def ct_update(spec, batches):
     """batches: {var: [(t, v), ...]}"""
+    if getattr(spec, '_vf_struct', None):
+        return spec.update([STRUCT_VAR, pack_signals(spec, batches)])
     args = [[v, [[t, x] for t, x in s]] for v, s in batches.items()]
     return spec.update(*args)
+
+
+def aligned(signals):
+    """can the signals be presented as ONE signal of structured samples?  (same sampling instants for every variable)"""
+    ts = [[t for t, _ in s] for s in signals.values()]
+    return all(t == ts[0] for t in ts)
+
+
+def pack_signals(spec, signals):
+    assert aligned(signals), 'structured presentation needs identical sampling instants'
+    vs = list(signals)
+    n = len(signals[vs[0]]) if vs else 0
+    return [[signals[vs[0]][i][0], pack(spec, {v: signals[v][i][1] for v in vs})] for i in range(n)]
 
 
 CALL_LIMIT_S = float(os.environ.get('VERIF_CALL_LIMIT_S', '20'))
